@@ -106,7 +106,7 @@ def make_body(job):
     elif op == 'complete':
       v = job['v']
       assume(c.out[v] >= 1)
-      s._HeapBalancerSink__Put(c.nodes[v])
+      B.release_method(s)(c.nodes[v])
       exp = dict(c.out); exp[v] = c.out[v] - 1
       ghost_ok(c, exp, 'complete')
       check('complete.no-below-zero', all('below Zero' not in w for w in log.warnings))
@@ -145,7 +145,7 @@ def make_body(job):
       s._downq = sn.downq; sn.downq = None
       out = sn.load - Idle
       assume(out >= 1)
-      s._HeapBalancerSink__Put(sn)
+      B.release_method(s)(sn)
       last = (out == 1)
       check('drain.close-iff-last', siff(sn.channel.closed == 1, last))
       check('drain.close-at-most-once', sn.channel.closed <= 1)
